@@ -193,6 +193,16 @@ func (a *Attributes) XXX_UnmarshalByFlags(flags uint32, buf *Buffer) (err error)
 
 	if a.Flags&AttrExtended != 0 {
 		count := buf.ConsumeCount()
+		if buf.Err != nil {
+			return buf.Err
+		}
+
+		// Each extended attribute occupies at least 8 bytes (two length-prefixed strings),
+		// so a count larger than the remaining length cannot fit and must not drive the allocation.
+		if count < 0 || count > buf.Len()/8 {
+			buf.Err = ErrShortPacket
+			return buf.Err
+		}
 
 		a.ExtendedAttributes = make([]ExtendedAttribute, count)
 		for i := range a.ExtendedAttributes {
